@@ -118,6 +118,8 @@ def primOfJ (g : GSpec) (fuel : Nat) : List J → Option Op
   | [.str "recSample"] => some (recPointWise true fuel g)
   | [.str "recKPoint", .int k] => some (recKPoint g k.toNat)
   | [.str "recOrder"] => some (recOrder g)
+  | [.str "recPartiallyMapped"] => some (recPMX g)
+  | [.str "recCycle"] => some (recCycle g)
   | [.str "recAverage"] => some (recNumeric none g)
   | [.str "recWeightedAverage"] => some (recNumeric (some harnessWeights) g)
   | [.str "recSegmented", .arr cuts] => do pure (recSegmented g (← cuts.mapM J.asNat?))
